@@ -205,6 +205,8 @@ def _call(side, op):
     except Exception as e:
         return ['exc', type(e).__module__ + '.' + type(e).__qualname__, canon.norm_msg(str(e))]
     except BaseException as e:
+        if type(e).__name__ in ('RunTimeout', 'RunTooBig'):
+            raise
         return ['base', type(e).__name__, str(e)[:100]]
 
 
